@@ -142,6 +142,18 @@ func runC15(h *Harness) {
 	}
 	sc["first_load_fails"] = firstLoadFails
 	h.Quiesce()
+	// a refresh cycle that takes most of a period (one slow download): the tick that follows it closely may be skipped
+	// by design, the ticks after that may not
+	// (ONE instance's origin is slow: refresh cycles of all instances of a process run one at a time, and the design
+	// allows a cycle "up to half the interval" — several slow origins at once are outside what the bounds below promise)
+	if tp.Chance(1, 2) {
+		in := insts[tp.Int(len(insts))]
+		if in.source != "file" && in.loc.State == oGood {
+			in.loc.SlowFirst, in.loc.Fetches = in.ivl*7/10, 0
+			sc["slow_cycle"] = in.n.Name
+		}
+		h.Settle(2*maxIvl + time.Minute)
+	}
 	// fail^k: k refresh periods during which the origins misbehave
 	faults := []string{oDown, oHTTP500, oGarbage, oTrunc, oEmpty, "badsig", "stranger"}
 	var fseq []string
